@@ -111,7 +111,10 @@ T10_OF = {
 }
 
 DATAIN = {
-    "Inquiry": lambda rng: (R.std_inquiry(rng.randrange(32), vendor="V%d" % rng.randrange(99)), {}),
+    "Inquiry": lambda rng: (R.std_inquiry(rng.randrange(32), vendor="V%d" % rng.randrange(99)), {}) if rng.random() < 0.4 else
+    (R.vpd_device_id(rng.randrange(32), [R.designation_descriptor(1, 0, 3, R.naa6(rng.randrange(1 << 24), rng.randrange(1 << 16), rng.randrange(1 << 64))),
+                                         R.designation_descriptor(1, 1, 4, R.be(rng.randrange(1 << 16), 4), piv=1, proto=rng.randrange(7)),
+                                         R.designation_descriptor(1, 2, 5, R.be(rng.randrange(1 << 16), 4), piv=1, proto=5)][:rng.randrange(1, 4)]), {"evpd": 1}),
     "ReadCapacity10": lambda rng: (R.read_capacity10(rng.randrange(1 << 32), rng.choice([512, 4096])), {}),
     "ReadCapacity16": lambda rng: (R.read_capacity16(rng.randrange(1 << 64), 512, lbpme=1), {}),
     "GetLBAStatus": lambda rng: (R.get_lba_status([(rng.randrange(1000), rng.randrange(1, 99), rng.randrange(3)) for _ in range(rng.randrange(4))]), {}),
@@ -183,6 +186,8 @@ def gen_thread_ops(rng, n, classes, allow_facade):
             ops.append({"op": "decode_foreign", "slot": rng.randrange(len(slots)), "cls": rng.choice(classes + ["ReadCapacity16", "GetLBAStatus", "ReportPriority", "ReportTargetPortGroups"]),
                         "tw": None})
             ops[-1]["tw"] = gen_ctor(rng, ops[-1]["cls"])
+        elif r < 0.585:
+            ops.append({"op": "rebuild", "slot": rng.randrange(len(slots))})
         elif r < 0.6:
             ops.append({"op": "decode_own", "slot": rng.randrange(len(slots))})
         elif r < 0.72:
@@ -198,7 +203,7 @@ def gen_thread_ops(rng, n, classes, allow_facade):
             name = rng.choice(sorted(DATAIN))
             buf, kw = DATAIN[name](rng)
             ops.append({"op": rng.choice(["unmarshall_datain", "roundtrip_datain"]) if name in ROUNDTRIP else "unmarshall_datain",
-                        "cls": name, "buf": bytes(buf).hex(), "tw": gen_ctor(rng, name)})
+                        "cls": name, "buf": bytes(buf).hex(), "dkw": kw, "tw": gen_ctor(rng, name)})
         else:
             ops.append({"op": "repeat_encode", "slot": rng.randrange(len(slots))})
     return ops
@@ -343,6 +348,17 @@ def do_op(ctx, op, reference):
                 except Exception:  # noqa
                     pass
             return canon(_cls(op["cls"]).unmarshall_cdb(bytes(ctx.slots[op["slot"]].cdb)))
+        if kind == "rebuild":
+            # the command's own build_cdb, called twice with equal inputs (the fields decoded from its CDB)
+            if op["slot"] >= len(ctx.slots) or ctx.slots[op["slot"]] is None:
+                return "no-object"
+            cmd = ctx.slots[op["slot"]]
+            if reference:
+                construct(ctx.slot_specs[op["slot"]])
+            d = type(cmd).unmarshall_cdb(cmd.cdb)
+            b1 = bytes(cmd.build_cdb(**d))
+            b2 = bytes(cmd.build_cdb(**dict(d)))
+            return [canon(b1), canon(b2), snap(cmd)]
         if kind in ("decode_own", "encode_own", "recheck", "repeat_encode"):
             if op["slot"] >= len(ctx.slots) or ctx.slots[op["slot"]] is None:
                 return "no-object"
@@ -370,10 +386,11 @@ def do_op(ctx, op, reference):
         if kind == "decode":
             return canon(cls.unmarshall_cdb(bytes.fromhex(op["cdb"])))
         buf = bytearray.fromhex(op["buf"])
+        dkw = op.get("dkw") or {}
         if kind == "unmarshall_datain":
-            return canon(cls.unmarshall_datain(buf))
+            return canon(cls.unmarshall_datain(buf, **dkw))
         if kind == "roundtrip_datain":
-            return canon(bytes(cls.marshall_datain(cls.unmarshall_datain(buf))))
+            return canon(bytes(cls.marshall_datain(cls.unmarshall_datain(buf, **dkw))))
         raise RuntimeError("unknown op %r" % (kind,))
 
     k, v = worlds.outcome_of(body)
@@ -392,14 +409,53 @@ def by_thread(prog):
     return lists
 
 
+def _alone(arg):
+    """one operation in a pristine process: only the object it refers to is built first"""
+    t, op, slot_spec = arg
+    WORLD.reset()
+    ctx = ThreadCtx(t)
+    if slot_spec is not None:
+        # rebuild the object the op refers to (as slot 0)
+        try:
+            ctx.slots.append(construct(slot_spec))
+        except BaseException:  # noqa
+            ctx.slots.append(None)
+        ctx.slot_specs.append(slot_spec)
+        ctx.snaps.append(snap(ctx.slots[0]) if ctx.slots[0] is not None else None)
+        op = dict(op, slot=0)
+    out = do_op(ctx, op, True)
+    fin = snap(ctx.slots[-1]) if op["op"] == "construct" and ctx.slots and ctx.slots[-1] is not None else None
+    return {"out": out, "final": fin}
+
+
 def compute_reference(prog):
+    """Reference outcomes.  Operations that do not touch a device are executed truly alone, each in its own process forked
+    from the pristine template (so even the same thread's earlier commands cannot influence them); facade operations
+    depend on the target's state by design and are executed as the thread's own sequence, alone."""
     WORLD.reset()
     out = {}
     for t, lst in enumerate(by_thread(prog)):
         ctx = ThreadCtx(t)
+        specs = []
+        finals = []
         for i, op in lst:
-            out[str(i)] = do_op(ctx, op, True)
-        out["final%d" % t] = [snap(c) if c is not None else None for c in ctx.slots]
+            if op["op"] in ("attach", "facade"):
+                out[str(i)] = do_op(ctx, op, True)
+                continue
+            slot_spec = None
+            if "slot" in op:
+                if op["slot"] >= len(specs):
+                    out[str(i)] = "no-object"
+                    continue
+                slot_spec = specs[op["slot"]]
+            r = core.fork_run(_alone, (t, op, slot_spec))
+            if "harness_error" in r:
+                raise RuntimeError("alone-reference failed: " + r["harness_error"])
+            out[str(i)] = r["out"]
+            if op["op"] == "construct":
+                specs.append(op)
+                finals.append(r["final"])
+        out["final%d" % t] = finals
     return out
 
 
@@ -432,7 +488,7 @@ def execute(prog):
         for i, op in lst:
             want, have = ref.get(str(i)), got.get(str(i))
             if want != have:
-                if op["op"] in ("construct", "decode", "unmarshall_datain", "roundtrip_datain", "construct_twice", "decode_foreign"):
+                if op["op"] in ("construct", "decode", "unmarshall_datain", "roundtrip_datain", "construct_twice"):
                     who = op["cls"]
                 elif "slot" in op and op["slot"] < len(ctxs[t].slot_specs):
                     who = ctxs[t].slot_specs[op["slot"]]["cls"]
@@ -442,6 +498,11 @@ def execute(prog):
                               expected="%s(%s) alone gives %s" % (op["op"], who, str(want)[:60]),
                               actual="%s under this history/schedule" % str(have)[:60]))
         for i, op in lst:
+            if op["op"] == "rebuild" and got.get(str(i), "").startswith("["):
+                a_, b_, s_ = json.loads(got[str(i)])
+                if a_ != b_:
+                    V.append(dict(oracle="C09.repeat-differs", where="threads" if multi else "sequential", detail="build_cdb",
+                                  expected="build_cdb twice with equal inputs gives equal bytes", actual="second call differs"))
             if op["op"] == "construct_twice" and got.get(str(i), "").startswith("["):
                 a_, b_ = json.loads(got[str(i)])
                 if a_ != b_:
